@@ -18,8 +18,10 @@ package prompt
 
 import (
 	"context"
+	"runtime/debug"
 
 	"github.com/cloudwego/eino/callbacks"
+	"github.com/cloudwego/eino/internal/safe"
 	"github.com/cloudwego/eino/schema"
 )
 
@@ -50,6 +52,11 @@ func (t *DefaultChatTemplate) Format(ctx context.Context,
 	vs map[string]any, _ ...Option) (result []*schema.Message, err error) {
 
 	defer func() {
+		if panicInfo := recover(); panicInfo != nil {
+			// a panicking template ends the unit for its handlers as well; the panic travels on to whoever recovers it
+			_ = callbacks.OnError(ctx, safe.NewPanicErr(panicInfo, debug.Stack()))
+			panic(panicInfo)
+		}
 		if err != nil {
 			_ = callbacks.OnError(ctx, err)
 		}
